@@ -33,6 +33,7 @@ STD_ENUMS = {
     'ControlFlow': {'Continue': 0, 'Break': 1},
     'Ordering': {'Less': -1, 'Equal': 0, 'Greater': 1},
     'Entry': {'Occupied': 0, 'Vacant': 1},
+    'BTreeEntry': {'Vacant': 0, 'Occupied': 1},
     'Cow': {'Borrowed': 0, 'Owned': 1},
     'Bound': {'Included': 0, 'Excluded': 1, 'Unbounded': 2},
     'ErrorKind': {n: i for i, n in enumerate(['NotFound', 'PermissionDenied', 'ConnectionRefused', 'ConnectionReset', 'HostUnreachable', 'NetworkUnreachable', 'ConnectionAborted', 'NotConnected', 'AddrInUse', 'AddrNotAvailable', 'NetworkDown', 'BrokenPipe', 'AlreadyExists', 'WouldBlock', 'NotADirectory', 'IsADirectory', 'DirectoryNotEmpty', 'ReadOnlyFilesystem', 'FilesystemLoop', 'StaleNetworkFileHandle', 'InvalidInput', 'InvalidData', 'TimedOut', 'WriteZero', 'StorageFull', 'NotSeekable', 'QuotaExceeded', 'FileTooLarge', 'ResourceBusy', 'ExecutableFileBusy', 'Deadlock', 'CrossesDevices', 'TooManyLinks', 'InvalidFilename', 'ArgumentListTooLong', 'Interrupted', 'Unsupported', 'UnexpectedEof', 'OutOfMemory', 'InProgress', 'Other', 'Uncategorized'])},
